@@ -137,7 +137,8 @@ pub fn compare(case: &Case, e: &ScEval, detail: &mut serde_json::Value) -> Optio
     }
     // `yield_now` tells loom that the thread cannot make progress until another thread has run:
     // the reference treats it as a no-op, so with yields only the "may" direction is demanded
-    let has_yield = p.has(|o| matches!(o, Op::Yield));
+    // (lazy static 2 yields inside its initialiser)
+    let has_yield = p.has(|o| matches!(o, Op::Yield | Op::LazyGet { k: 2 } | Op::LazyCellRead { k: 2 }));
     if has_yield {
         must = false;
     }
